@@ -217,7 +217,7 @@ func ZZ_C18_Generated(sv *zzsv.T) {
 	vars := map[string]zv{}
 	var order []string
 	if sv.Choice("family", 2) == 0 {
-		g := newGen(sv, sv.Param("depth", 2, 3))
+		g := newGen(sv, sv.Param("depth", 1, 2))
 		g.small = true
 		if sv.Choice("withconst", 2) == 1 {
 			g.constKind = 1 + sv.Choice("constkind", 6)
@@ -226,7 +226,7 @@ func ZZ_C18_Generated(sv *zzsv.T) {
 		src = p.text()
 		vars, order = g.vars, g.order
 	} else {
-		k := sv.Choice("scenario", 13)
+		k := sv.Choice("scenario", 16)
 		clash := []string{"a", "b"}[sv.Choice("clash", 2)]
 		src = zzScopeProgram(sv, k, clash, xVar("arr")).text()
 	}
